@@ -237,6 +237,8 @@ class Gen:
             refs = [x for x in m['refs'] if x[0] == o]
             if refs:
                 cand.append(['get_DIE_from_attribute', r.choice(refs)[1]])
+            if len(d['unit_meta']) >= 2 and not getattr(self, '_no_sweep', False):
+                cand.append(['sweep_units', r.choice(['top', 'top', 'dies'])])
             target = ['die', m['off'], o]
         elif ttype == 'lineprog':
             m = r.choice(d['unit_meta'])
@@ -344,6 +346,16 @@ class Gen:
                 first.append(['rng_iter', None])
             if 'tu_iter' in self.kinds:
                 first.append(['tu_iter', None])
+        if d and len(d.get('unit_meta') or []) >= 8 and 'session:die' in self.kinds:
+            # an entry held by the caller while every other unit of a many-unit file is visited, then navigation from it
+            for kb in ('get_parent', 'iter_siblings', 'iter_children', 'get_full_path'):
+                for _ in range(2):
+                    try:
+                        o = self.draw_session('die', force=('sweep_units', kb))
+                    except Exception:
+                        o = None
+                    if o is not None:
+                        first.append(o)
         if d and d.get('cfi'):
             for k in sorted(d['cfi']):
                 first.append(['cfi_entries', k])
